@@ -51,6 +51,8 @@ package basestreamleecher
 //@   modifies d.Peers[peer], ongoing, speer, nstart
 //@   ensures  [gone] !has(d.Peers, peer)
 //@   ensures  [nosession] !(ongoing && speer == peer)
+//@   ensures  [terminated] d.Terminated ==> nstart == old(nstart)
+//@   ensures  [registered] nstart > old(nstart) ==> ongoing && has(d.Peers, speer)
 //@   ensures  result == nil
 //@
 //@ func (*BaseLeecher).Terminate
